@@ -182,4 +182,4 @@ def check(ck):
             ck.require(msg_e is not None and c05.is_string_expr(msg_e), "C02.5", "%s: Fault #%d message" % (q.fn(fi), n5),
                        "string-typed message", "error message is not a string-typed expression: %s" % (dump(msg_e) if msg_e is not None else "default"),
                        q.loc(fi, n))
-    ck.floor("C02.5", 24)
+    ck.floor("C02.5", 20)
